@@ -11,6 +11,7 @@ package main
 import (
 	"crypto/sha256"
 	"fmt"
+	"math"
 	"sort"
 	"strings"
 
@@ -411,6 +412,23 @@ func (h *hist) advEvent(adv *adversary, b *hx.Node) {
 		itxs = append(itxs, itx)
 	}
 	ev := hg.NewEvent(nil, itxs, sigs, []string{adv.head, op}, h.advPub(adv), adv.seq+1)
+	// C18: the adversary also lies about the time (extreme and absurd claimed timestamps); the block timestamp is the median
+	// of the famous witnesses' claimed times and must stay within the honest witnesses' range
+	switch h.rng.Intn(8) {
+	case 0:
+		ev.Body.Timestamp = math.MinInt64
+	case 1:
+		ev.Body.Timestamp = math.MaxInt64
+	case 2:
+		ev.Body.Timestamp = -1
+	case 3:
+		ev.Body.Timestamp = 0
+	case 4:
+		ev.Body.Timestamp = 1
+	case 5:
+		ev.Body.Timestamp = math.MaxInt64/3*2 + int64(h.rng.Intn(1000))
+	}
+	h.byzTime[ev.Hex()] = true
 	ev.Sign(w.Privs[adv.ord])
 	ev.SetWireInfo(adv.seq, opCreator, opIndex, w.Peers[adv.ord].ID())
 	wev := ev.ToWire()
